@@ -529,6 +529,7 @@ pub fn roots_once(which: Which, tier: &str, seed: i64) -> (Acc, Vec<SpaceReport>
         // a pawn on the 7th against a rook or queen: roots where an under-promotion (a knight fork, a stalemate-avoiding
         // rook) is the best move, so that lines continue with a move of the new piece
         Space::all(Universe::UPQ),
+        Space::all(Universe::UNF),
     ];
     run_spaces(&spaces, &|ctx, acc| {
         let Ok(g) = load(ctx.pos) else { return };
